@@ -265,6 +265,15 @@ fn run_exec(spec: &Spec, cases_path: &str, expected_path: &str) {
             match rx.recv_timeout(Duration::from_secs(spec.hang_secs)) {
                 Ok((g, i, v)) => { if g == generation { verdicts[i] = Some(v); next = i + 1; if next >= n { break; } } }
                 Err(mpsc::RecvTimeoutError::Timeout) => {
+                    // slow or hanging?  A loaded machine must never turn a slow-but-correct call into a `hang`: for the first
+                    // two time-outs of a run wait another 8 x hang_secs; an answer that arrives in that grace period is judged
+                    // like any other answer.
+                    if hangs < 2 {
+                        if let Ok((g, i, v)) = rx.recv_timeout(Duration::from_secs(spec.hang_secs * 8)) {
+                            if g == generation { verdicts[i] = Some(v); next = i + 1; if next >= n { break; } }
+                            continue;
+                        }
+                    }
                     // the call at `next` did not return: outcome `hang`
                     let observed = "hang".to_string();
                     verdicts[next] = Some(Some(compare_default(observed, &expected[next])));
